@@ -143,7 +143,18 @@ static void check_key_match(const char *fam, const UChar *a, const UChar *b) {
             nontriv++;
             if (n != 1 || u_strcmp(keys[0], b) != 0) viol(fam, "table keys after entering %s then the equivalent %s: %d key(s), first %s (expected the most recent spelling only)", hex(a), hex(b), n, n ? hex(keys[0]) : "-");
         } else if (n != 2) viol(fam, "table keys after entering the distinct keys %s and %s: %d key(s)", hex(a), hex(b), n);
-        free(keys);
+        free(keys); keys = NULL;
+    }
+    /* the entry's own value object stored back under the first spelling (documented as allowed: "no change" to the value): the key
+       is used once more, so it is that spelling which enumerates */
+    if (want && rc == CIF_OK && cif_value_get_item_by_key(t, b, &v) == CIF_OK && v != NULL) {
+        rc = cif_value_set_item_by_key(t, a, v);
+        if (rc != CIF_OK) viol(fam, "storing the entry's own value back under the equivalent key %s: rc %d", hex(a), rc);
+        else if (cif_value_get_keys(t, &keys) == CIF_OK) {
+            int n = 0; while (keys[n]) n++;
+            if (n != 1 || u_strcmp(keys[0], a) != 0) viol(fam, "table keys after %s, %s and the entry's own value stored back under %s: %d key(s), first %s (expected the most recent spelling)", hex(a), hex(b), hex(a), n, n ? hex(keys[0]) : "-");
+            free(keys);
+        }
     }
     cif_value_free(t);
 }
